@@ -21,6 +21,12 @@ use crate::SHARED_IN_CHANNEL_SIZE;
 
 use self::storage::TorrentMaps;
 
+/// Verification hook: re-exports of the otherwise private storage module.
+#[cfg(feature = "verif-hooks")]
+pub mod verif_hooks {
+    pub use super::storage::{extract_response_peers, TorrentMaps};
+}
+
 pub async fn run_swarm_worker(
     config: Config,
     state: State,
